@@ -5,7 +5,8 @@
    TX op ...  (S:ch:cmd:hex | F:k | F:-)  -> outbuf(hex,...) | wirehex | nsent
    HS hexchunk ...           -> 0/1 resthex        (repaired client)
    HS1 hexchunk ...          -> 0/1 resthex        (single read(12))
-   HSSPEC hex                -> 0/1 resthex *)
+   HSSPEC hex                -> 0/1 resthex
+   SSTART k ...              -> writtenhex lefthex  (server_sync through BufferedWriter.flush under raw writes taking k bytes) *)
 let st_str = function RxOk -> "OK" | RxAssert -> "ASSERT" | RxFuel -> "FUEL"
 let frame_str f = Printf.sprintf "%d,%d,%s" (int_of_n f.f_ch) (int_of_n f.f_cmd) (hex_of_bytes f.f_data)
 let frames_str fs = String.concat ";" (List.map frame_str fs)
@@ -38,5 +39,8 @@ let handle = function
   | ["HSSPEC"; hx] ->
       let (ok, rest) = hs_spec client_sync (bytes_of_hex hx) in
       Printf.sprintf "%d %s" (if ok then 1 else 0) (hex_of_bytes rest)
+  | "SSTART" :: ks ->
+      let (w, l) = flush_all (List.map (fun k -> n_of_int (int_of_string k)) ks) server_sync in
+      Printf.sprintf "%s %s" (hex_of_bytes w) (hex_of_bytes l)
   | _ -> "ERROR bad command"
 let () = main_loop handle
